@@ -58,6 +58,11 @@ CLAIMED["C12"] = ("§3 C12",
     "Decides the concreteness gate before every encValue/encFile, that every data encoding sets concrete=true and the round-trip encodings have both encoder and decoder cases with error defaults, that no error of the encode/validate/close chain is dropped in the encoder or in cue export, that the output file is opened exclusively (unless --force) only after the whole buffer exists, and the JSON importer's key-unquoting predicate. It does not decide data equality across the trip nor TOML table/key handling.",
     "third-party YAML/TOML emitters trusted; file-type inference is CUE-language data (types.cue), not analysed")
 
+CLAIMED["C11"] = ("§3 C11",
+    "path automata on the two YAML encoders: SetString-then-consult typestate (yaml.v3), plain-return-only-after-consult reachability and gate (goccy), key emission must-pass",
+    "Narrow: decides that every string value and mapping key passes the quoting decision (shouldQuote / quoteScalar / blockLiteralSafe or an explicit tag/style) before it is emitted, in both live encoders, and that the scalar switches cover all literal kinds. It does not decide whether the predicates are right for a given string, nor numbers, nor the JSON-as-YAML clause.",
+    "third-party emitters honour styles and raw scalars")
+
 # properties not claimed (yet) -> reason
 NOT_APPLICABLE = {
     "C03": "value-level: the content is the cell values of the bound-simplification decision table over numbers; no shape rule separates a correct table from an off-by-one (DESIGN.md §4)",
